@@ -218,4 +218,54 @@ def equalAreas (rd : RegionData) : Bool :=
   hasDup ((candDict rd).map fun kv => (kv.2.canon, kv.1)) ||
   hasDup ((subDict rd).map fun kv => (kv.2.canon, kv.1))
 
+/-! ### well-formed input (the hypotheses of the theorems, evaluated on every case as the scope flag) -/
+
+/-- an origin-spanning location with one part on each side of the origin (either part order) -/
+def twoPart (L : Int) : Loc → Bool
+  | .compound [a, b] =>
+    a.strand == b.strand &&
+    ((decide (a.hi = L) && decide (b.lo = 0) && decide (0 < b.hi) && decide (b.hi ≤ a.lo) && decide (a.lo < L)) ||
+     (decide (a.lo = 0) && decide (b.hi = L) && decide (0 < a.hi) && decide (a.hi ≤ b.lo) && decide (b.lo < L)))
+  | _ => false
+
+def partsOK (L : Int) (l : Loc) : Bool :=
+  !l.parts.isEmpty && l.parts.all fun p => decide (0 ≤ p.lo) && decide (p.lo < p.hi) && decide (p.hi ≤ L)
+
+/-- the record is not empty; the region lies in it (`start < end`, or `end < start` when it runs over
+    the origin — a region covering a whole circular record, `start = end`, is left to the
+    correspondence); every feature has non-empty parts inside the record; exons of a feature that does
+    not run over the origin fit into its hull (they do not overlap); a feature running over the origin
+    has one part on each side -/
+def wfInput (rd : RegionData) (rec : BioRecord) : Bool :=
+  let L := rec.length
+  decide (0 < L) &&
+  (if rd.crossesOrigin then decide (0 < rd.end) && decide (rd.end < rd.start) && decide (rd.start < L)
+   else decide (0 ≤ rd.start) && decide (rd.end ≤ L)) &&
+  rec.features.all fun f =>
+    partsOK L f.loc &&
+    (if bridgesOrigin f.loc then twoPart L f.loc else decide (f.loc.len ≤ f.loc.end - f.loc.start))
+
+/-! ### references go through one renumbering per kind -/
+
+/-- `ys` is `xs` sent element by element through the renumbering `d` -/
+def Through (d : List (Int × Int)) (xs ys : List Int) : Prop := mapE (dictGet d) xs = .ok ys
+
+/-- the numbering qualifiers `gq` of a written feature of type `type` are those of the original
+    feature, `fq`, with every number sent through the renumbering of its kind -/
+def RefsThrough (rn : Renumbering) (type : String) (fq gq : Quals) : Prop :=
+  (type = "region" → Through rn.cands fq.candNumbers gq.candNumbers ∧ Through rn.subs fq.subNumbers gq.subNumbers) ∧
+  (type = "cand_cluster" → ∃ n m ps ps', fq.candNumber = some n ∧ gq.candNumber = some m ∧ dictGet rn.cands n = .ok m ∧
+      fq.protoNumbers = some ps ∧ gq.protoNumbers = some ps' ∧ Through rn.protos ps ps') ∧
+  ((type = "protocluster" ∨ type = "proto_core") →
+      ∃ n m, fq.protoNumber = some n ∧ gq.protoNumber = some m ∧ dictGet rn.protos n = .ok m) ∧
+  (type = "subregion" → ∃ n m, fq.subNumber = some n ∧ gq.subNumber = some m ∧ dictGet rn.subs n = .ok m)
+
+/-- a renumbering `ν` of the areas `areas` (number, location) is a bijection onto `1..n` that follows
+    their position in the region file -/
+def GoodNumbering (rd : RegionData) (L : Int) (areas : List (Int × Loc)) (ν : List (Int × Int)) : Prop :=
+  (∀ a la, (a, la) ∈ areas → ∃ m, dictGet ν a = .ok m) ∧
+  (∀ a m, dictGet ν a = .ok m → 1 ≤ m ∧ m ≤ areas.length ∧ ∃ la, (a, la) ∈ areas) ∧
+  (∀ a b la lb m m', (a, la) ∈ areas → (b, lb) ∈ areas → dictGet ν a = .ok m → dictGet ν b = .ok m' →
+    ((m ≤ m' ↔ keyLe (positionKey rd L a la) (positionKey rd L b lb) = true) ∧ (m = m' → a = b)))
+
 end ASV.RegionExtract
